@@ -93,7 +93,8 @@ def run(ctx):
         ws = [w for w in q.writes() if w.b in slice_blocks]
         calls = [c for c in q.calls() if c.b in slice_blocks]
         fields = sorted(w.field for w in ws)
-        okw = fields == ["end_time", "status"] and all(w.owner.endswith("Order") for w in ws) and any(status_const(w.val) == "Rejected" for w in ws)
+        # (that the rejected order's end time is stamped - here or by the caller - is C04's exit-state rule)
+        okw = set(fields) <= {"end_time", "status"} and "status" in fields and all(w.owner.endswith("Order") for w in ws) and any(status_const(w.val) == "Rejected" for w in ws)
         ctx.check(okw and not calls, "reject", "slice|" + f.short(), q.loc(f.body.blocks[sx].stmts[0].sp if f.body.blocks[sx].stmts else f.span),
                   "trading off: the market order is only marked Rejected with its end time (no call, no other write)",
                   "trading off: market placement writes %s and calls %s" % (fields, [c.name for c in calls]))
